@@ -1,5 +1,6 @@
 import WhVerif.Util.Proto
 import WhVerif.Model.C12
+import WhVerif.Model.C12Run
 namespace WhVerif.Driver.C12
 open Lean WhVerif.Proto WhVerif.C12
 
@@ -61,6 +62,72 @@ def doChrom (f : Flags) (onlySnvs wantBl : Bool) (j : Json) : Option (Except Err
         let g := ofList (fun (r : Nat × Nat × Nat) => ofNatList [r.1, r.2.1, r.2.2]) (gtf ph)
         pure (.ok (s, target, Json.mkObj [("row", rowJson (detailed s) (ng50 s target)), ("blockList", blJson), ("gtf", g)]))
 
+/-! ## `c12.run`: `run_stats` end to end -/
+
+def runErrJson : RunErr → Json
+  | .chrom e => errJson e
+  | .invalidChromosome _ => Json.str "VcfInvalidChromosome"
+
+def blJson (rows : List (BlockId × Nat × Nat × Nat)) : Json :=
+  ofList (fun (r : BlockId × Nat × Nat × Nat) => Json.arr #[optJson r.1, ofNat r.2.1, ofNat r.2.2.1, ofNat r.2.2.2]) rows
+
+def partJson (f : Flags) (lens : List (String × Nat)) (p : Part) : Json :=
+  let ph := phasedOf f p.vars
+  let bl := match blockList (blocksOf ph) with
+    | .ok rows => blJson rows
+    | .error _ => Json.null
+  Json.mkObj [("name", Json.str p.name), ("row", rowJson (detailed p.stats) (partN50 lens p)), ("blockList", bl),
+    ("gtf", ofList (fun (r : Nat × Nat × Nat) => ofNatList [r.1, r.2.1, r.2.2]) (gtf ph))]
+
+def parseGroup (j : Json) : Option (String × List Rec) := do
+  pure (← getStr? j "name", ← (← getList? j "recs").mapM parseRec)
+
+def parseLen (j : Json) : Option (String × Nat) := do
+  match ← asArr? j with
+  | [a, b] => pure (← asStr? a, ← asNat? b)
+  | _ => none
+
+def parseRunIn (j : Json) : Option RunIn := do
+  pure { flags := { fixMissing := ← getBool? j "fixMissing", fixPs := ← getBool? j "fixPs" },
+         dedupGiven := ← getBool? j "dedupGiven", onlySnvs := ← getBool? j "onlySnvs", wantBl := ← getBool? j "blockList",
+         indexed := ← getBool? j "indexed", contigs := ← (← getList? j "contigs").mapM asStr?,
+         lens := ← (← getList? j "lens").mapM parseLen, given := ← (← getList? j "given").mapM asStr?,
+         file := ← (← getList? j "file").mapM parseGroup }
+
+def strsJson (l : List String) : Json := Json.arr (l.map Json.str).toArray
+
+/-- `c12.run {…RunIn}` → `{chroms: [{name, row, blockList, gtf}], seen: [...], all: row | null}` or `{err}`;
+`c12.n50 {lengths, target}` → `n50(lengths, target)`; `c12.unpack {args}` → `unpack_chromosomes(args)` -/
+def handleRun (op : String) (j : Json) : Option Json :=
+  if op == "c12.run" then
+    let r : Option Json := do
+      let i ← parseRunIn j
+      match run i with
+      | .error e => pure (Json.mkObj [("err", runErrJson e)])
+      | .ok o =>
+        let allJ := match o.all with
+          | some s => rowJson (detailed s) (allN50 i.lens o.parts)
+          | none => Json.null
+        pure (Json.mkObj [("chroms", ofList (partJson i.flags i.lens) o.parts), ("seen", strsJson o.seen), ("all", allJ)])
+    some (r.getD badInput)
+  else if op == "c12.n50" then
+    let r : Option Json := do
+      pure (ofNat (n50 (← getNatList? j "lengths") (← getNat? j "target")))
+    some (r.getD badInput)
+  else if op == "c12.ng50" then
+    -- `{lens: [[name, len]], blocks: [[chromosome, span]]}` → `compute_ng50` (null = nan)
+    let r : Option Json := do
+      let lens ← (← getList? j "lens").mapM parseLen
+      let bs ← (← getList? j "blocks").mapM parseLen
+      pure (optJson (computeNg50 lens (bs.map (·.1)) (bs.map (fun b => [(0, false), (b.2, false)]))))
+    some (r.getD badInput)
+  else if op == "c12.unpack" then
+    let r : Option Json := do
+      pure (strsJson (unpackChromosomes (← (← getList? j "args").mapM asStr?)))
+    some (r.getD badInput)
+  else none
+
+
 /-- `c12.stats {fixMissing, fixPs, onlySnvs, blockList, chroms: [{length, recs}]}` (only the chromosomes that are processed,
 in file order) → `{chroms: [{row, blockList, gtf}], all: row}` or `{err}` -/
 def handle (op : String) (j : Json) : Option Json :=
@@ -77,5 +144,5 @@ def handle (op : String) (j : Json) : Option Json :=
         | .ok (s, t, cj) :: rest => go (addStats acc s) (target + t) (cj :: js) rest
       pure (go {} 0 [] outs)
     some (r.getD badInput)
-  else none
+  else handleRun op j
 end WhVerif.Driver.C12
